@@ -746,3 +746,73 @@ pub fn data_placement_program(container: usize, read_first: bool) -> Prog {
     main.push(b.print(items));
     Prog { main, ..Default::default() }
 }
+
+// ---------------------------------------------------------------------------
+// Axis T: what counts as true. A condition is true when it is not zero, whatever its value
+// and type: 2, 1, -1, .5, 100000 are true, 0 and 0.0 are false — in IF, ELSEIF, single-line IF,
+// WHILE and the four DO forms (UNTIL leaves the loop on ANY non-zero value, not only on -1).
+// ---------------------------------------------------------------------------
+
+pub const TRUTH_VALUES: [&str; 9] = ["2", "1", "-1", "0", "-2", ".5", "0.0", "32767", "100000"];
+pub const TRUTH_KINDS: [&str; 9] = ["IF", "ELSEIF", "single-line IF", "WHILE", "DO WHILE", "DO UNTIL", "LOOP WHILE", "LOOP UNTIL", "IF NOT"];
+
+pub fn truth_program(kind: usize, value: usize, as_variable: bool) -> Prog {
+    let mut b = B::new();
+    let lit = |t: &str| -> Expr {
+        if let Some(r) = t.strip_prefix('-') { Expr::Neg(Box::new(Expr::Num(r.to_string()))) } else { Expr::Num(t.to_string()) }
+    };
+    let v0 = lit(TRUTH_VALUES[value]);
+    let mut main = vec![];
+    // loops read the condition from V! (they must change it to end); branches use the literal or the variable
+    let cond: Expr = if as_variable || (3..=7).contains(&kind) {
+        main.push(b.assign(var("V!"), v0.clone()));
+        var("V!")
+    } else {
+        v0
+    };
+    let say = |b: &mut B, t: &str| b.print(vec![st(t)]);
+    match kind {
+        0 => {
+            let t = vec![say(&mut b, "then")];
+            let e = vec![say(&mut b, "else")];
+            main.push(b.s(K::If { arms: vec![(cond, t)], els: Some(e), single_line: false }));
+        }
+        1 => {
+            let t = vec![say(&mut b, "then")];
+            let m = vec![say(&mut b, "elseif")];
+            let e = vec![say(&mut b, "else")];
+            main.push(b.s(K::If { arms: vec![(num(0), t), (cond, m)], els: Some(e), single_line: false }));
+        }
+        2 => {
+            let t = vec![say(&mut b, "then")];
+            let e = vec![say(&mut b, "else")];
+            main.push(b.s(K::If { arms: vec![(cond, t)], els: Some(e), single_line: true }));
+        }
+        8 => {
+            // NOT is bitwise: NOT 1 = -2 is true, NOT -1 = 0 is false (whole values only)
+            let t = vec![say(&mut b, "then")];
+            let e = vec![say(&mut b, "else")];
+            main.push(b.s(K::If { arms: vec![(Expr::Not(Box::new(cond)), t)], els: Some(e), single_line: false }));
+        }
+        _ => {
+            // the body runs at most twice: it prints, then sets the condition so that the loop ends
+            // (WHILE forms: 0; UNTIL forms: 2, a true value that is not -1)
+            let until = matches!(kind, 5 | 7);
+            let body = vec![
+                b.assign(var("N%"), bin(BinOp::Add, var("N%"), num(1))),
+                b.print(vec![st("body"), var("N%")]),
+                b.assign(var("V!"), if until { num(2) } else { num(0) }),
+            ];
+            let k = match kind {
+                3 => K::While(cond, body),
+                4 => K::Do(DoKind::WhileTop, cond, body),
+                5 => K::Do(DoKind::UntilTop, cond, body),
+                6 => K::Do(DoKind::WhileBottom, cond, body),
+                _ => K::Do(DoKind::UntilBottom, cond, body),
+            };
+            main.push(b.s(k));
+        }
+    }
+    main.push(b.print(vec![st("end"), var("N%")]));
+    Prog { main, ..Default::default() }
+}
